@@ -94,6 +94,7 @@ let () =
   let impl_rt : (n, router) Hashtbl.t = Hashtbl.create 16 in
   let impl_rib : (n, string) Hashtbl.t = Hashtbl.create 16 in
   let late_pending : (n * string) option ref = ref None in
+  let group_base = ref N0 and group_any = ref false in
   let stale_pending : (n * string) option ref = ref None in
   let held : (n, adv_entry list * int) Hashtbl.t ref = ref (Hashtbl.create 4) in
   let last_ping : (n * n, n) Hashtbl.t = Hashtbl.create 16 in          (* (i, j) -> clock of the last Sync Interest of j at i *)
@@ -140,7 +141,20 @@ let () =
           incr evc; clean := false; Hashtbl.remove impl_nb i; Hashtbl.remove impl_ent i; Hashtbl.remove impl_rt i; Hashtbl.remove impl_rib i;
           apply (PBase (RouterDown i)) true
       | ["ev"; "up"; i; j] -> incr evc; apply (PBase (NbrUp (n_of_dec i, n_of_dec j))) true
-      | ["ev"; "dead"; i; j] -> incr evc; clean := false; apply (PBase (NbrDead (n_of_dec i, n_of_dec j))) true
+      | ["ev"; "dead"; i; j] ->
+          let i = n_of_dec i in
+          incr evc; clean := false;
+          group_base := sget i !pm.myseq;
+          apply (PBase (NbrDead (i, n_of_dec j))) true;
+          group_any := !last_dirty
+      | ["ev"; "deadmore"; i; j] ->
+          (* further victims of the same sweep: checkDeadNeighbors notifies once for all of them *)
+          let i = n_of_dec i in
+          incr evc; clean := false;
+          apply (PBase (NbrDead (i, n_of_dec j))) true;
+          group_any := !group_any || !last_dirty;
+          let p = !pm in
+          pm := { p with myseq = sset i (if !group_any then N.add !group_base (n_of_int 1) else !group_base) p.myseq }
       | ["ev"; "fetch"; i; j] ->
           let i = n_of_dec i and j = n_of_dec j in
           incr evc;
@@ -201,7 +215,8 @@ let () =
                else served i j)
       | "obs" :: i :: d :: nb :: rib :: adv :: ent :: rest ->
           let i = n_of_dec i in
-          let sq = match rest with [x] -> Some (split_field "sq=" x) | _ -> None in
+          let sq = match rest with x :: _ -> Some (split_field "sq=" x) | _ -> None in
+          let ms = match rest with [_; y] -> Some (split_field "ms=" y) | _ -> None in
           let nb = split_field "nb=" nb and rib = split_field "rib=" rib
           and adv = split_field "adv=" adv and ent = split_field "ent=" ent in
           (* oracle on the implementation's own advertisement *)
@@ -248,6 +263,9 @@ let () =
                     let m = dashed "," (List.map (fun j -> dec_of_n j ^ ":" ^ dec_of_n_raw (pget (i, j) !pm.nseq)) (List.sort ncmp r.nbrs)) in
                     if m <> sq then diverge "seq" m sq
                 | None -> ());
+               (match ms with
+                | Some ms -> let m = dec_of_n_raw (sget i !pm.myseq) in if m <> ms then diverge "myseq" m ms
+                | None -> ());
                if d <> "x" && d <> b01 !last_dirty then diverge "dirty" (b01 !last_dirty) d) end
       | [("chk" | "chkclean") as kind; _r] ->
           incr nchecks;
@@ -270,6 +288,20 @@ let () =
                   oracle "table_ok" (Printf.sprintf "router=%s rounds=%d table=%s" (dec_of_n i) !rounds
                     (dashed ";" (List.map (fun (d, (c, h)) -> String.concat "/" [dec_of_n d; dec_of_n c; dec_of_n h]) tbl)))) g
           end
+      | ["chkpair"; i; j] ->
+          incr nchecks;
+          let i = n_of_dec i and j = n_of_dec j in
+          (* on the implementation's own dumps: what i stores through j is what j's current advertisement offers *)
+          (match Hashtbl.find_opt impl_rt i, Hashtbl.find_opt impl_rt j with
+           | Some ri, Some rj ->
+               if List.exists (N.eqb j) ri.nbrs then begin
+                 let dests = List.map fst ri.rrib @ List.map fst rj.rrib in
+                 let bad = List.filter (fun d -> not (N.eqb (cost_via ri.rrib d j) (offered i rj.rrib d))) dests in
+                 if bad <> [] then
+                   oracle "restart_not_noticed" (Printf.sprintf "router=%s neighbour=%s (restarted): stored costs through it differ from what it now offers for %s; known seq=%s table=%s"
+                     (dec_of_n i) (dec_of_n j) (String.concat "," (List.map dec_of_n bad)) (dec_of_n_raw (pget (i, j) !pm.nseq)) (str_ent ri))
+               end
+           | _ -> ())
       | ["chkquiet"] ->
           incr nchecks;
           (* the implementation's own state, as dumped, taken as a network state of the model's type *)
